@@ -3,6 +3,9 @@
 (* headers before the frames of their track, non-decreasing timestamps) over the message kinds   *)
 (* below x codec combination x join point of a second HTTP-TS consumer is run through the         *)
 (* reference model of lal, and what it hands to the consumers must satisfy the acceptor.          *)
+(* C02 for RTSP: a subscriber of the Group sends DESCRIBE (DescR) and SETUP / PLAY (PlayR) at any  *)
+(* two instants; what the RTSP reference (RrStep) hands it must satisfy the RTP acceptor with      *)
+(* SdpCur, KeyFirst and RtspStartsInTime.                                                         *)
 EXTENDS RemuxOut
 
 CONSTANTS VCodec, ACodec,
@@ -10,11 +13,15 @@ CONSTANTS VCodec, ACodec,
           MaxVer,      \* parameter-set / sequence-header versions
           VKinds,      \* video message kinds: [name, key, cts, nals (types), newps]
           DtPool,      \* timestamp increments (ms)
-          AscPool      \* AudioSpecificConfig versions
+          AscPool,     \* AudioSpecificConfig versions
+          TJoin, RJoin,\* which late consumers a behaviour may have: a second HTTP-TS one, an RTSP one
+          RMut         \* "none", or the mutant of the reference the design check must catch (RTSP side, or "nodrain":
+                       \* the probe queue is dropped when the input leaves)
 
-VARIABLES uid, now, npub, ended
-mvars == <<vars, uid, now, npub, ended>>
-View == <<vc, ac, hist, cons, rtp, rm, uid, now, npub, ended>>
+VARIABLES uid, now, npub, ended,
+          rr          \* reference model of the RTSP side
+mvars == <<vars, uid, now, npub, ended, rr>>
+View == <<vc, ac, hist, cons, rtp, rm, uid, now, npub, ended, rr>>
 
 T0 == 1000
 DefN == 100
@@ -37,12 +44,14 @@ HevcMore == { K("Ks", TRUE, 40, <<"sei", "idr">>, FALSE), K("Ka", TRUE, 0, <<"au
               K("Kas", TRUE, 0, <<"aud", "vps", "sps", "pps", "sei", "idr">>, FALSE),
               K("Ksp", TRUE, 0, <<"sps", "idr">>, TRUE), K("Pp", FALSE, 0, <<"pps", "slice">>, TRUE),
               K("Pv", FALSE, 0, <<"vps", "sps", "pps", "slice">>, FALSE) }
+AvcMin == { K("K", TRUE, 0, <<"idr">>, FALSE), K("P", FALSE, 0, <<"slice">>, FALSE) }     \* enough for the witnesses
 AvcAll == AvcCore \cup AvcMore
 HevcAll == HevcCore \cup HevcMore
 NoKinds == {}
 Dt3 == {0, 23, 400}
 Dt5 == {0, 23, 160, 400, 70000}
 Dt2 == {23, 400}
+Dt1 == {23}
 
 CurVer == LET s == {hist.ps.sps, hist.ps.pps, hist.ps.vps, hist.vshv} IN CHOOSE x \in s : \A y \in s : y <= x
 NCoded(ts, i) == Cardinality({j \in 1..i : ts[j] \in {"idr", "slice", "sei"}})
@@ -59,7 +68,8 @@ MkA(tm) == [k |-> "a", name |-> "A", ver |-> 0, key |-> FALSE, cts |-> 0, n |-> 
 
 TsCons == {"t1", "t2"}
 Init == /\ vc = VCodec /\ ac = ACodec /\ hist = HistInit
-        /\ cons = [c \in {"t1", "t2", "hls"} |-> ConsInit] /\ rtp = [c \in RtpCons |-> RtpInit]
+        /\ cons = [c \in {"t1", "t2", "hls"} |-> ConsInit]
+        /\ rtp = [c \in RtpCons |-> IF c \in RtpGated THEN [RtpInit EXCEPT !.gate = TRUE] ELSE RtpInit] /\ rr = RrInit
         /\ rm = [RmInit EXCEPT !.sub["t1"] = [in |-> TRUE, fresh |-> TRUE, wait |-> TRUE]]
         /\ uid = 0 /\ now = T0 /\ npub = 0 /\ ended = FALSE
         /\ act = [name |-> "init"]
@@ -67,12 +77,17 @@ Init == /\ vc = VCodec /\ ac = ACodec /\ hist = HistInit
 Step(m, dt) ==
   LET h2 == HistStep(hist, m, T3OfInt(m.tm))
       y == FeedAll(RmPush(rm, m), NoDel, 1)
+      z == IF RJoin THEN RrStep(rr, m, RMut)      \* without an RTSP subscriber the RTSP side is not run
+           ELSE [r |-> rr, del |-> RrNoDel, sdp |-> RrNoDel]
   IN /\ hist' = h2
      /\ rm' = y.r
+     /\ rr' = z.r
+     /\ rtp' = [c \in RtpCons |-> IF c \in DOMAIN z.del
+                                  THEN AcceptRtp(h2, AcceptSdps(h2, rtp[c], z.sdp[c], 1, TRUE), z.del[c], 1) ELSE rtp[c]]
      /\ cons' = [c \in DOMAIN cons |-> IF c \in TsCons THEN AcceptTs(h2, cons[c], y.del[c], 1) ELSE cons[c]]
      /\ now' = m.tm /\ npub' = npub + 1
      /\ act' = [name |-> "Pub", m |-> m, dt |-> dt]
-     /\ UNCHANGED <<vc, ac, rtp, ended>>
+     /\ UNCHANGED <<vc, ac, ended>>
 
 PubVsh == /\ ~ended /\ npub < MaxPub /\ VCodec # "none"
           /\ (hist.vshv = 0 \/ CurVer < MaxVer)
@@ -88,22 +103,39 @@ PubV == /\ ~ended /\ npub < MaxPub /\ VCodec # "none" /\ hist.vshv > 0
 PubA == /\ ~ended /\ npub < MaxPub /\ ACodec # "none" /\ (ACodec = "aac" => hist.ascv > 0)
         /\ \E dt \in DtPool : Step(MkA(now + dt), dt)
         /\ uid' = uid + 1
-Join2 == /\ ~ended /\ ~rm.sub["t2"].in
+Join2 == /\ TJoin /\ ~ended /\ ~rm.sub["t2"].in
          /\ rm' = [rm EXCEPT !.sub["t2"] = [in |-> TRUE, fresh |-> TRUE, wait |-> TRUE]]
          /\ act' = [name |-> "Join", c |-> "t2"]
-         /\ UNCHANGED <<vc, ac, hist, cons, rtp, uid, now, npub, ended>>
+         /\ UNCHANGED <<vc, ac, hist, cons, rtp, uid, now, npub, ended, rr>>
+\* the RTSP subscriber rh: DESCRIBE (answered at once if the stream is described), later SETUP / PLAY
+DescR == /\ RJoin /\ ~ended /\ rr.sub["rh"].st = "no"
+         /\ IF rr.sdp # <<>>
+            THEN /\ rr' = [rr EXCEPT !.sub["rh"].st = "sdp"]
+                 /\ rtp' = [rtp EXCEPT !["rh"] = AcceptSdps(hist, @, rr.sdp, 1, TRUE)]
+            ELSE rr' = [rr EXCEPT !.sub["rh"].st = "desc"] /\ rtp' = rtp
+         /\ act' = [name |-> "DescR"]
+         /\ UNCHANGED <<vc, ac, hist, cons, rm, uid, now, npub, ended>>
+PlayR == /\ RJoin /\ ~ended /\ rr.sub["rh"].st = "sdp"
+         /\ rr' = [rr EXCEPT !.sub["rh"] = [st |-> "play", wait |-> rr.sub["rh"].wait /\ (hist.vshv > 0 \/ RMut = "hold")]]   \* stat.VideoCodec known
+         /\ rtp' = [rtp EXCEPT !["rh"].play = hist.step]
+         /\ act' = [name |-> "PlayR"]
+         /\ UNCHANGED <<vc, ac, hist, cons, rm, uid, now, npub, ended>>
 End == /\ ~ended /\ npub > 0
-       /\ LET y == FeedAll(RmFlushAudio(rm), NoDel, 1)
+       /\ LET y == FeedAll(IF RMut = "nodrain" THEN RmFlushAudio(rm) ELSE RmDispose(rm), NoDel, 1)
           IN /\ rm' = y.r
              /\ cons' = [c \in DOMAIN cons |-> IF c \in TsCons THEN AcceptTs(hist, cons[c], y.del[c], 1) ELSE cons[c]]
        /\ ended' = TRUE /\ act' = [name |-> "End"]
-       /\ UNCHANGED <<vc, ac, hist, rtp, uid, now, npub>>
+       /\ UNCHANGED <<vc, ac, hist, rtp, uid, now, npub, rr>>
 
-Next == PubVsh \/ PubAsh \/ PubV \/ PubA \/ Join2 \/ End
+Next == PubVsh \/ PubAsh \/ PubV \/ PubA \/ Join2 \/ DescR \/ PlayR \/ End
 Spec == Init /\ [][Next]_mvars
 
 AllOk == \A c \in TsCons : cons[c].ok
 EndComplete == ended => (\A c \in TsCons : EndOk(hist, cons[c])) /\ StartsInTime(hist, cons["t1"])
 WitnessV == ~(ended /\ cons["t1"].vcur >= 2 /\ cons["t1"].acur >= 1 /\ cons["t2"].vcur >= 1 /\ cons["t2"].start > 3)
+RAllOk == \A c \in RtpGated : rtp[c].ok
+REndComplete == ended => \A c \in RtpGated : RtpEndOk(hist, rtp[c]) /\ RtspStartsInTime(hist, rtp[c])
+\* non-vacuity: the RTSP subscriber joined a described stream in the middle of a GOP, waited, and was handed video and audio
+WitnessR == ~(ended /\ rtp["rh"].play >= 2 /\ rtp["rh"].start > rtp["rh"].play + 1 /\ rtp["rh"].vcur >= 1 /\ rtp["rh"].acur >= 1)
 EmitA == PrintT("@A@" \o ToJson([a |-> act, l |-> TLCGet("level")]))
 =============================================================================
